@@ -46,7 +46,28 @@ def record(c):
         dt = 1j * c['dtabs'] * (1 if rng.random() < 0.5 else -1)
         tr = sweepgen.record_tdvp(ptn, H, psi, c['alg'], dt, c['nsteps'], c['numiter'])
         if c['repeat'] and tr[-1].get('ev') == 'end':
-            sweepgen.record_tdvp(ptn, H, psi, c['alg'], dt, 1, c['numiter'], tr=tr)
+            # a history: the user changes the state or the Hamiltonian between two calls on the same objects
+            how = str(rng.choice(['none', 'scale_psi', 'ortho_left', 'quench_H', 'quench_H', 'local_op']))
+            k = int(rng.integers(c['L']))
+            if how == 'scale_psi':
+                psi.A[k] = psi.A[k] * 0.5
+            elif how == 'ortho_left':
+                psi.orthonormalize(mode='left')
+                psi.A[-1] = psi.A[-1] * 1.5
+            elif how == 'quench_H':
+                # parameter quench in place: the tensors of another Hamiltonian of the same model overwrite those of H
+                H2 = sweepgen.make_hamiltonian(ptn, rng, c['L'], c['kind'])
+                if all(a.shape == b.shape for a, b in zip(H.A, H2.A)) and all(np.array_equal(x, y) for x, y in zip(H.qD, H2.qD)):
+                    for a, b in zip(H.A, H2.A):
+                        a[...] = b
+                else:
+                    H.A[k] *= 1.3
+            elif how == 'local_op':
+                d = len(psi.qd)
+                u = np.diag(np.exp(1j * np.arange(d)))       # diagonal phase: conserves the charges
+                psi.A[k] = np.einsum('st,tab->sab', u, psi.A[k])
+            alg2 = c['alg'] if rng.random() < 0.8 else ('tdvp2' if c['alg'] == 'tdvp1' and c['L'] >= 2 else 'tdvp1')
+            sweepgen.record_tdvp(ptn, H, psi, alg2, dt, 1, c['numiter'], tr=tr)
         return tr
     except BaseException as ex:  # noqa
         return [dict(ev='raise', exc=f'generator: {type(ex).__name__}: {str(ex)[:80]}')]
